@@ -82,6 +82,7 @@ def run(ck):
         scenarios = exported + [m18.gen_scenario(r_, ck.pick(4, 6)) for _ in range(ck.pick(14, 180))]
     events, infos, points = [], {}, 0
     for tid, sc in enumerate(scenarios):
+        sc.pop("precut", None)  # crash-state roots are C18's family (C19 crashes every merge itself)
         sc["mounts"] = []  # filesystem boundaries are C18's dimension; the crash re-executions do not emulate them
         w = m18.World(os.path.join(base, f"w{tid}"), sc)
         op = m18.make_op(w)
